@@ -9,6 +9,18 @@ def impl(case):
     g, x = case["gens"], case["query"]
     out = {}
     from paulie import PauliStringCollection
+    for nz in case.get("noise", []):
+        # unrelated work in the same process before the question is asked: other collections classified and queried
+        try:
+            c = cls._coll(nz["gens"])
+            c.get_algebra()
+            for pr in nz["probes"]:
+                try:
+                    c.is_in(cls._coll([pr])); c.select_dependents(cls._coll([pr]))
+                except Exception:  # noqa
+                    pass
+        except Exception:  # noqa
+            pass
     routes = case.get("routes", ["parse"])
     live = None
     if case.get("history"):
@@ -114,6 +126,19 @@ def main():
                       "history": {"gens": g0, "steps": steps, "warm": ck.rng.sample(["in", "space", "sel", "eq"], ck.rng.randint(1, 2)) if n <= 4 else ck.rng.sample(["in", "sel", "eq"], 1)}})
     # corpus: the recorded witness of the known finding (a member of the closure not recognised on a graph with 5 single legs)
     cases.append({"n": 6, "gens": ["ZIXYIZ", "XIIXXY", "IIZYXI", "IIYXZI", "YXIYYY", "ZIYYII"], "query": ["ZXYIXZ"], "space": False})
+    # every fifth case is asked after unrelated collections (two-local chains, random ones) were classified and queried in the same process
+    for i, c in enumerate(cases):
+        if i % 5 == 4 and not c.get("history"):
+            n = c["n"]
+            noise = []
+            for _k in range(ck.rng.randint(1, 2)):
+                ng = G.long_chain_cases(ck.rng, 1, n)[0][2] if (n >= 2 and ck.rng.random() < 0.6) else [G.uniform(ck.rng, n) for _ in range(ck.rng.randint(2, 7))]
+                probes = []
+                for _j in range(ck.rng.randint(2, 6)):
+                    j = ck.rng.randrange(n)
+                    probes.append("I" * j + ck.rng.choice("XYZ") + "I" * (n - j - 1) if ck.rng.random() < 0.6 else G.uniform(ck.rng, n))
+                noise.append({"gens": ng, "probes": probes})
+            c["noise"] = noise
     res = ck.impl("c08", cases, per_case_s=120)
     ans = ck.oracle(["member %d %s %s" % (c["n"], ",".join(c["gens"]), ",".join(c["query"])) for c in cases])
     sp = ck.oracle(["space %d %s" % (c["n"], ",".join(c["gens"])) for c in cases])
